@@ -254,6 +254,9 @@ class FloatBackend(BackendBase):
     def alias(self, a):
         return _data_of(a)
 
+    def let(self, a, tag="harness"):
+        return _data_of(a)
+
     def sym_float(self, name, lo, hi):
         v = self._ov(name, float(self._draw((), lo=lo, hi=hi)))
         self.inputs[name] = v
@@ -387,6 +390,11 @@ class SymBackend(BackendBase):
 
     def const(self, v):
         return v
+
+    def let(self, a, tag="harness"):
+        """let-binding: every entry that is not a single symbol / constant is replaced by a fresh name with the defining
+        equation name == entry as an assumption (nothing is lost; keeps iterated maps from expanding)"""
+        return stubs.alias_entries(_data_of(a), f"let ({tag})", limit=1)
 
     def alias(self, a):
         """replace entries by the alias variables the engine already introduced for identical polynomials
